@@ -30,3 +30,18 @@ Proof. intros Hle. unfold src_len, clen. lia. Qed.
 Lemma src_run_scratchlen_tie (n len sl : nat) :
   src_run_scratchlen (Z.of_nat n) (Z.of_nat len) (Z.of_nat sl) = Z.of_nat (sl + (n + len - sl)).
 Proof. unfold src_run_scratchlen. lia. Qed.
+
+(** where a sweep stores its row, and how many rows the views show (the two differ after a clear
+    at an iteration that is not a multiple of the swap interval: known finding D3 of C09/C06) *)
+Lemma src_swap_ii_tie (iteration lastclear : nat) : (lastclear < iteration)%nat ->
+  src_swap_ii (Z.of_nat iteration) (Z.of_nat lastclear) = Z.of_nat (iteration - lastclear - 1).
+Proof. intros Hlt. unfold src_swap_ii. lia. Qed.
+
+Lemma src_swap_row_tie (ii swap_interval : nat) :
+  src_swap_row (Z.of_nat ii) (Z.of_nat swap_interval) = Z.of_nat (ii / swap_interval).
+Proof. unfold src_swap_row. now rewrite of_nat_div. Qed.
+
+Lemma src_view_rows_tie (len swap_interval : nat) :
+  src_swaps_view_rows (Z.of_nat len) (Z.of_nat swap_interval) = Z.of_nat (len / swap_interval)
+  /\ src_acceptance_view_rows (Z.of_nat len) (Z.of_nat swap_interval) = Z.of_nat (len / swap_interval).
+Proof. unfold src_swaps_view_rows, src_acceptance_view_rows. now rewrite of_nat_div. Qed.
